@@ -336,7 +336,17 @@ func signAndBreak[B neofscrypto.ProtoMessage, R interface {
 		if vh.OriginSignature != nil {
 			sigs = append(sigs, vh.OriginSignature)
 		}
-		sigs[s.DefectArg%len(sigs)].Key = slices.Clone(u.Users[IDOther2].Pub)
+		k := u.Users[IDOwner].Pub
+		if s.Requester == IDOwner {
+			k = u.Users[IDOther2].Pub
+		}
+		sigs[s.DefectArg%len(sigs)].Key = slices.Clone(k)
+	case DefForgedKey:
+		for _, sig := range []*refs.Signature{vh.BodySignature, vh.MetaSignature, vh.OriginSignature} {
+			if sig != nil {
+				sig.Key = slices.Clone(u.Users[IDOwner].Pub)
+			}
+		}
 	case DefBodyChanged:
 		mutateBody()
 	case DefMetaChanged:
@@ -382,8 +392,11 @@ func (u *Universe) otherAddr(s Spec) *refs.Address {
 // Build produces the messages of the normalised spec. It panics on harness bugs only.
 func (u *Universe) Build(s Spec) *Built {
 	b := &Built{Spec: s, Ctx: context.Background(), Late: s.Late || s.Defect == DefEACLHeader}
-	if s.Trusted {
+	switch {
+	case s.Trusted:
 		b.Ctx = peer.NewContext(b.Ctx, &peer.Peer{AuthInfo: peerauth.AuthInfo{PublicKey: u.Users[s.Requester].Key.PublicKey()}})
+	case s.TLSPeer:
+		b.Ctx = peer.NewContext(b.Ctx, &peer.Peer{AuthInfo: peerauth.AuthInfo{PublicKey: u.Users[IDOther2].Key.PublicKey()}})
 	}
 	switch s.Op {
 	case OpGet:
